@@ -405,11 +405,12 @@ def watchH : Handler := fun inp impl => do
   let spec := bad.isNone && implSteps.length == cats.length
   let changes := (texts.zip (texts.drop 1)).any (fun (a, b) => a != b)
   let someRoute := cats.any (fun cat => ((named (current cat)).flatMap (intents c)).any (expressibleB env pf))
-  let outside := verdicts.any (fun v => v.2 != "ok")
+  -- a property of the input, not of the outcome: the manual text is outside the scope of the spec
+  let outside := verdicts.any (fun v => v.2 == "man-rejected" || v.2 == "man-nonadd")
   let tag := (match bad with
     | some v => v.2
     | none => if implSteps.length != cats.length then "step-count"
-              else if outside then (verdicts.find? (fun v => v.2 != "ok")).map (·.2) |>.getD "ok"
+              else if outside then (verdicts.find? (fun v => v.2 != "ok")).map (·.2) |>.getD "man-outside"
               else if mans.any (·.isSome) then "history+manual" else if changes then "history" else "static") ++
     (if agree then "" else "/watch-differs")
   return ({ model := m, agree, spec, nontrivial := changes && someRoute && !outside, tag } : Verdict).toJson
